@@ -157,6 +157,14 @@ template<class T> static void chk_refract(const InV<T>& in,vf::Ctx& c){
 		auto A=glm::refract(mk<T,L,AQ>(in.a,in.mode,in.poison),mk<T,L,AQ>(in.b,in.mode>>1,in.poison),eta); auto P=glm::refract(mk<T,L,PQ>(in.a,0,in.poison),mk<T,L,PQ>(in.b,0,in.poison),eta);
 		long double d=0,sabs=0; for(int k=0;k<L;k++){ d+=(long double)in.b[k]*in.a[k]; sabs+=fabsl((long double)in.b[k]*in.a[k]); } long double k=1-(long double)eta*eta*(1-d*d); long double kerr=16*uu<T>()*(1+(long double)eta*eta*(1+sabs*sabs));
 		bool az=true,pz=true; for(int i=0;i<L;i++){ az=az&&(A[i]==0); pz=pz&&(P[i]==0); }
+		// at most one non-zero product: dot(N,I) is that one rounded product in both builds whatever the summation order, and k = 1 - eta*eta*(1 - d*d)
+		// is the same sequence of correctly rounded operations in both -> the decision has nothing to differ by, however close k is to 0
+		int nzp=0; for(int q=0;q<L;q++) if(in.a[q]!=0 && in.b[q]!=0) nzp++;
+		if(nzp<=1){ c.cls(fabsl(k)<=kerr? "dot-exact-in-both-builds:k~0":"dot-exact-in-both-builds");
+			if(az!=pz){ c.fail(tag(L,"refract:dot-exact-in-both-builds:total-internal-reflection-decision-differs-from-pure"),az?"zero vector (aligned)":"non-zero (aligned)",pz?"zero vector (pure)":"non-zero (pure)"); return; }
+			if(az) return;
+			for(int i=0;i<L;i++){ long double S=RefrScale()(in,i,L); if(!agree(A[i],P[i],FORMULA,S,c,"refract-exact-dot-err/bound")) c.fail(tag(L,"refract:dot-exact-in-both-builds:component:beyond-rounding-of-largest-term"),A[i],P[i]); }
+			return; }
 		if(fabsl(k)<=kerr){ c.cls("k~0:either-branch-accepted"); return; }
 		c.cls(k<0?"total-internal-reflection":"refraction");
 		if(az!=pz){ c.fail(tag(L,k<0?"refract:total-internal-reflection:branch-differs-from-pure":"refract:valid-refraction:branch-differs-from-pure"),az?"zero vector (aligned)":"non-zero (aligned)",pz?"zero vector (pure)":"non-zero (pure)"); return; }
@@ -297,7 +305,12 @@ template<class T> static void reg_float(vf::Op** o){ // order = COMMON then GEOM
 	REG(T,*o[k],geo) k++; /*dot*/ REG(T,*o[k],geo) k++; /*length*/ REG(T,*o[k],geo) k++; /*distance*/ REG(T,*o[k],nz) k++; /*normalize*/ REG(T,*o[k],geo) k++; /*reflect*/
 	vjobs<T>().push_back(VJob<T>{o[k],[](InV<T>& x){ fin(x.a,4,1e15); fin(x.b,4,1e15); fin(x.c,4,1e15); if(x.mode&4){ /* dot(Nref,I)==0 exactly */ x.b[0]=1; x.b[1]=0; x.b[2]=0; x.b[3]=0; x.c[0]=0; } }}); k++; /*faceforward: N=a, I=b, Nref=c */
 	vjobs<T>().push_back(VJob<T>{o[k],[](InV<T>& x){ /* refract: unit-ish I,N; eta in (0,4] */ fin(x.a,4,4); fin(x.b,4,4); for(int L=0;L<1;L++){} T eta=(T)std::fabs((double)x.c[0]); if(!(eta>(T)1e-3&&eta<=(T)4)) eta=(T)1.5; x.c[0]=eta;
-		long double na=0,nb=0; for(int i=0;i<4;i++){ na+=(long double)x.a[i]*x.a[i]; nb+=(long double)x.b[i]*x.b[i]; } if(na<1e-6){ x.a[0]=1; na=1+na; } if(nb<1e-6){ x.b[1]=1; nb=1+nb; } /* normalised for the 4-lane case; shorter lengths use a prefix (non-unit), which is still inside 'eta>0, finite' */ for(int i=0;i<4;i++){ x.a[i]=(T)(x.a[i]/sqrtl(na)); x.b[i]=(T)(x.b[i]/sqrtl(nb)); } }}); k++;
+		long double na=0,nb=0; for(int i=0;i<4;i++){ na+=(long double)x.a[i]*x.a[i]; nb+=(long double)x.b[i]*x.b[i]; } if(na<1e-6){ x.a[0]=1; na=1+na; } if(nb<1e-6){ x.b[1]=1; nb=1+nb; } /* normalised for the 4-lane case; shorter lengths use a prefix (non-unit), which is still inside 'eta>0, finite' */ for(int i=0;i<4;i++){ x.a[i]=(T)(x.a[i]/sqrtl(na)); x.b[i]=(T)(x.b[i]/sqrtl(nb)); }
+		if((x.mode&6)==6){ /* a quarter of the inputs: N = +-axis, I in a coordinate plane with cos = m/256, eta within +-200 ulps of the critical 1/sin */
+			u64 h=0; { unsigned char by[sizeof x.c]; memcpy(by,x.c,sizeof by); for(unsigned char ch: by) h=(h^ch)*0x100000001b3ULL; h^=h>>29; h*=0x9e3779b97f4a7c15ULL; h^=h>>32; }
+			int j=(int)(h&3), i2=(int)((j+1+((h>>2)%3))&3); T cth=(T)(1+((h>>4)%255))/(T)256, sn=(T)std::sqrt((double)1-(double)cth*(double)cth);
+			for(int q=0;q<4;q++){ x.a[q]=0; x.b[q]=0; } x.b[j]=(h>>12)&1? (T)1:(T)-1; x.a[j]=(h>>13)&1? cth:(T)-cth; x.a[i2]=sn;
+			T e=(T)1/sn; int steps=(int)((h>>16)%401)-200; for(int q=0;q<std::abs(steps);q++) e=std::nextafter(e,steps<0?(T)0:(T)100); if(e>(T)1e-3&&e<=(T)4) x.c[0]=e; } }}); k++;
 	REG(T,*o[k],geo) k++; /*cross*/ REG(T,*o[k],nullptr) k++; /*conv*/
 	vjobs<T>().push_back(VJob<T>{o[k],[](InV<T>& x){ fin(x.a,4,1e6); fin(x.b,4,1e6); fin(x.c,4,1e6); if(x.c[1]==0) x.c[1]=(T)2; /* quaternion norms stay in the normal range (vec*quat divides by dot(q,q)) */ long double n=0; for(int i=0;i<4;i++) n+=(long double)x.a[i]*x.a[i]; if(n<1e-6L) x.a[0]=(T)(x.a[0]<0?-1.5:1.5); }}); k++; /*quat*/
 }
